@@ -226,25 +226,26 @@ func addGlobalsReset(f *ast.File) {
 		}
 		for _, sp := range gd.Specs {
 			vs := sp.(*ast.ValueSpec)
-			var lhs []ast.Expr
-			blank := false
-			for _, n := range vs.Names {
+			if len(vs.Values) != 0 && len(vs.Values) != len(vs.Names) {
+				continue // var a, b = f(): not handled (none in the repository)
+			}
+			for i, n := range vs.Names {
 				if n.Name == "_" {
-					blank = true
+					continue
 				}
-				lhs = append(lhs, ast.NewIdent(n.Name))
-			}
-			if blank {
-				continue
-			}
-			switch {
-			case len(vs.Values) > 0:
-				body = append(body, &ast.AssignStmt{Lhs: lhs, Tok: token.ASSIGN, Rhs: vs.Values})
-			case vs.Type != nil:
-				for _, l := range lhs {
-					zero := &ast.StarExpr{X: &ast.CallExpr{Fun: ast.NewIdent("new"), Args: []ast.Expr{vs.Type}}}
-					body = append(body, &ast.AssignStmt{Lhs: []ast.Expr{l}, Tok: token.ASSIGN, Rhs: []ast.Expr{zero}})
+				var rhs ast.Expr
+				switch {
+				case len(vs.Values) > 0:
+					rhs = vs.Values[i]
+				case vs.Type != nil:
+					rhs = &ast.StarExpr{X: &ast.CallExpr{Fun: ast.NewIdent("new"), Args: []ast.Expr{vs.Type}}}
+				default:
+					continue
 				}
+				reinit := &ast.FuncLit{Type: &ast.FuncType{Params: &ast.FieldList{}}, Body: &ast.BlockStmt{List: []ast.Stmt{
+					&ast.AssignStmt{Lhs: []ast.Expr{ast.NewIdent(n.Name)}, Tok: token.ASSIGN, Rhs: []ast.Expr{rhs}}}}}
+				body = append(body, &ast.ExprStmt{X: &ast.CallExpr{Fun: sel("simrt", "RegisterVar"),
+					Args: []ast.Expr{&ast.UnaryExpr{Op: token.AND, X: ast.NewIdent(n.Name)}, reinit}}})
 			}
 		}
 	}
@@ -252,9 +253,7 @@ func addGlobalsReset(f *ast.File) {
 		return
 	}
 	rep.Rewrites["globals-reset"] += len(body)
-	reset := &ast.FuncLit{Type: &ast.FuncType{Params: &ast.FieldList{}}, Body: &ast.BlockStmt{List: body}}
-	call := &ast.ExprStmt{X: &ast.CallExpr{Fun: sel("simrt", "RegisterReset"), Args: []ast.Expr{reset}}}
-	f.Decls = append(f.Decls, &ast.FuncDecl{Name: ast.NewIdent("init"), Type: &ast.FuncType{Params: &ast.FieldList{}}, Body: &ast.BlockStmt{List: []ast.Stmt{call}}})
+	f.Decls = append(f.Decls, &ast.FuncDecl{Name: ast.NewIdent("init"), Type: &ast.FuncType{Params: &ast.FieldList{}}, Body: &ast.BlockStmt{List: body}})
 }
 
 func siteOf(fset *token.FileSet, pos token.Pos, rel string) string {
